@@ -87,6 +87,9 @@ func (sc *scn) ffScenario() *qx.Scenario {
 		seq := 0
 		var evs []evt
 		rec := func(e evt) {
+			c.Lock()
+			e.J = len(c.Journal)
+			c.Unlock()
 			mu.Lock()
 			seq++
 			e.Seq, e.At = seq, x.Now()
